@@ -784,6 +784,16 @@ func c01SearchSelect(c *Ctx, w *World, m *gensignModel, f *Facts, sel *searchCal
 	for _, r := range liveReturns(sel.pred) {
 		nRet++
 		for _, lf := range w.Leaves(r.Results[0], r) {
+			// return err == nil: the comparison itself
+			if bin, isBin := throughCell(strip(lf.Val)).(*ssa.BinOp); isBin && bin.Op == token.EQL {
+				x, y := bin.X, bin.Y
+				if isNilConst(x) {
+					x, y = y, x
+				}
+				if isNilConst(y) && throughCell(strip(x)) == ssa.Value(m.AuthCall) {
+					continue
+				}
+			}
 			k, isK := throughCell(strip(lf.Val)).(*ssa.Const)
 			if !isK || k.Value == nil {
 				okPred = false
